@@ -67,7 +67,7 @@ class C17(Prop):
 
     def observe(self, case):
         from hta.trace_diff import DeviceType, LabeledTrace, TraceDiff
-        obs: Dict[str, Any] = {"prop": "C17", "err": "", "dev": case["dev"], "short": bool(case["short"]), "table": [],
+        obs: Dict[str, Any] = {"prop": "C17", "err": "", "dev": case["dev"], "short": bool(case["short"]), "table": [], "table2": [],
                                "classes": {k: [] for k in ("added", "deleted", "increased", "decreased", "unchanged")},
                                "hasClasses": False, "self": case["mode"] != "other", "sameObj": case["mode"] == "sameobj"}
         with hta.CaseDir("c17") as d:
@@ -96,17 +96,25 @@ class C17(Prop):
             dev = getattr(DeviceType, case["dev"])
             try:
                 df = TraceDiff.compare_traces(lc, lt, case["csel"][0], case["tsel"][0], case["csel"][1], case["tsel"][1], dev, case["short"])
-                cl, tl = lc.label, lt.label
+                cl, tl = str(df.columns[0])[:-len("_counts")], str(df.columns[2])[:-len("_counts")]
                 for name, row in df.iterrows():
                     obs["table"].append({"name": str(name), "cc": hta.ival(row[f"{cl}_counts"]), "tc": hta.ival(row[f"{tl}_counts"]),
                                          "cd": hta.ival(row[f"{cl}_total_duration"]), "td": hta.ival(row[f"{tl}_total_duration"]),
                                          "dc": hta.ival(row["diff_counts"]), "dd": hta.ival(row["diff_duration"]),
                                          "cat": str(row["counts_change_categories"])})
-                if not case["short"]:
-                    lc.label, lt.label = ("A", "B") if lc is not lt else ("A", "A")
-                    res = TraceDiff.ops_diff(lc, lt, case["csel"][0], case["tsel"][0], case["csel"][1], case["tsel"][1], dev)
-                    obs["classes"] = {k: [str(x) for x in v] for k, v in res.items()}
-                    obs["hasClasses"] = True
+                # history on the same LabeledTrace objects: ops_diff (always long names), then the comparison in the other name mode
+                lc.label, lt.label = ("A", "B") if lc is not lt else ("A", "A")
+                res = TraceDiff.ops_diff(lc, lt, case["csel"][0], case["tsel"][0], case["csel"][1], case["tsel"][1], dev)
+                obs["classes"] = {k: [str(x) for x in v] for k, v in res.items()}
+                obs["hasClasses"] = True
+                lc.label, lt.label = ("A", "B") if lc is not lt else ("A", "A")
+                df2 = TraceDiff.compare_traces(lc, lt, case["csel"][0], case["tsel"][0], case["csel"][1], case["tsel"][1], dev, not case["short"])
+                cl, tl = str(df2.columns[0])[:-len("_counts")], str(df2.columns[2])[:-len("_counts")]
+                for name, row in df2.iterrows():
+                    obs["table2"].append({"name": str(name), "cc": hta.ival(row[f"{cl}_counts"]), "tc": hta.ival(row[f"{tl}_counts"]),
+                                          "cd": hta.ival(row[f"{cl}_total_duration"]), "td": hta.ival(row[f"{tl}_total_duration"]),
+                                          "dc": hta.ival(row["diff_counts"]), "dd": hta.ival(row["diff_duration"]),
+                                          "cat": str(row["counts_change_categories"])})
             except Exception as ex:
                 obs["err"] = hta.exc_str(ex)
         return obs
